@@ -146,18 +146,21 @@ type worker struct {
 	evals    int64
 }
 
-func (w *worker) report(class, detail string) {
+// report records a violation of the given class; it returns false when the
+// class is an open finding (counted, not reported).
+func (w *worker) report(class, detail string) bool {
 	if w.tolerate[class] {
 		w.counts["tolerated:"+class]++
-		return
+		return false
 	}
 	w.counts["violations"]++
 	w.counts["class:"+class]++
 	if w.seenCls[class] {
-		return
+		return true
 	}
 	w.seenCls[class] = true
 	w.viol = append(w.viol, violation{class, detail})
+	return true
 }
 
 func (prop) Work(c core.Case) core.Result {
@@ -371,6 +374,12 @@ func (w *worker) tree(src astgen.Source, p astgen.Parsed) {
 	// root is entered must be exactly the reflective direct children
 	wnodes, _ := astrefl.Nodes(p.Tree, walkOpts)
 	walkBad := false
+	bad := func(class, detail string) {
+		if w.report(class, detail) {
+			walkBad = true
+		}
+	}
+	walked := map[uintptr][]ast.Node{} // what Walk hands to the visitor below each node
 	for _, ref := range wnodes {
 		n := ref.Node
 		tn := astrefl.TypeName(n)
@@ -382,20 +391,20 @@ func (w *worker) tree(src astgen.Source, p astgen.Parsed) {
 		val, panicked, stack := core.Guard(func() { astutil.Walk(v, n) })
 		got = v.children
 		if panicked {
-			walkBad = true
-			w.report("walk-panic:"+tn, fmt.Sprintf("Walk panicked on a %s node: %v; %s; source: %s\n%s", tn, val, where(src, p, n), snippet(src, p), firstFrames(stack)))
+			bad("walk-panic:"+tn, fmt.Sprintf("Walk panicked on a %s node: %v; %s; source: %s\n%s", tn, val, where(src, p, n), snippet(src, p), firstFrames(stack)))
 			continue
 		}
 		if v.rootVisits != 1 {
-			walkBad = true
-			w.report("walk-root:"+tn, fmt.Sprintf("Walk called Visit(root) %d times; %s", v.rootVisits, where(src, p, n)))
+			bad("walk-root:"+tn, fmt.Sprintf("Walk called Visit(root) %d times; %s", v.rootVisits, where(src, p, n)))
 		}
 		gotCount := map[uintptr]int{}
 		for _, g := range got {
+			if !astrefl.IsNilNode(g) {
+				walked[astrefl.NodePointer(n)] = append(walked[astrefl.NodePointer(n)], g)
+			}
 			if astrefl.IsNilNode(g) {
-				walkBad = true
 				edge := nilEdge(want)
-				w.report("walk-nil:"+edge, fmt.Sprintf("Walk handed a nil %T to the visitor (edge %s is nil); %s; source: %s", g, edge, where(src, p, n), snippet(src, p)))
+				bad("walk-nil:"+edge, fmt.Sprintf("Walk handed a nil %T to the visitor (edge %s is nil); %s; source: %s", g, edge, where(src, p, n), snippet(src, p)))
 				continue
 			}
 			gotCount[astrefl.NodePointer(g)]++
@@ -410,17 +419,14 @@ func (w *worker) tree(src astgen.Source, p astgen.Parsed) {
 			switch gotCount[ptr] {
 			case 1:
 			case 0:
-				walkBad = true
-				w.report("walk-miss:"+c.Edge, fmt.Sprintf("Walk never visits the %s child reached through %s; %s; source: %s", astrefl.TypeName(c.Node), c.Edge, where(src, p, n), snippet(src, p)))
+				bad("walk-miss:"+c.Edge, fmt.Sprintf("Walk never visits the %s child reached through %s; %s; source: %s", astrefl.TypeName(c.Node), c.Edge, where(src, p, n), snippet(src, p)))
 			default:
-				walkBad = true
-				w.report("walk-twice:"+c.Edge, fmt.Sprintf("Walk visits the %s child reached through %s %d times; %s", astrefl.TypeName(c.Node), c.Edge, gotCount[ptr], where(src, p, n)))
+				bad("walk-twice:"+c.Edge, fmt.Sprintf("Walk visits the %s child reached through %s %d times; %s", astrefl.TypeName(c.Node), c.Edge, gotCount[ptr], where(src, p, n)))
 			}
 		}
 		for _, g := range got {
 			if !astrefl.IsNilNode(g) && !wantSet[astrefl.NodePointer(g)] {
-				walkBad = true
-				w.report("walk-extra:"+tn, fmt.Sprintf("Walk visits a %s that is not a direct child of the %s; %s", astrefl.TypeName(g), tn, where(src, p, n)))
+				bad("walk-extra:"+tn, fmt.Sprintf("Walk visits a %s that is not a direct child of the %s; %s", astrefl.TypeName(g), tn, where(src, p, n)))
 			}
 		}
 	}
@@ -428,6 +434,34 @@ func (w *worker) tree(src astgen.Source, p astgen.Parsed) {
 	// --- whole tree: Walk and Inspect census (exactly once)
 	if !walkBad {
 		w.evals++
+		// The nodes a full Walk must reach: the closure, from the root, of the
+		// children Walk hands to the visitor node by node. Without open findings
+		// this is every node of the tree (the loop above has just checked it);
+		// with tolerated walk-miss classes it leaves out what hangs below a
+		// never-visited child.
+		var expected []astrefl.NodeRef
+		{
+			byPtr := map[uintptr]astrefl.NodeRef{}
+			for _, ref := range wnodes {
+				byPtr[astrefl.NodePointer(ref.Node)] = ref
+			}
+			seen := map[uintptr]bool{}
+			var visit func(ptr uintptr)
+			visit = func(ptr uintptr) {
+				if seen[ptr] {
+					return
+				}
+				seen[ptr] = true
+				if ref, ok := byPtr[ptr]; ok {
+					expected = append(expected, ref)
+				}
+				for _, c := range walked[ptr] {
+					visit(astrefl.NodePointer(c))
+				}
+			}
+			visit(astrefl.NodePointer(p.Tree))
+			w.counts["nodes_below_tolerated_walk_miss"] += int64(len(wnodes) - len(expected))
+		}
 		for _, mode := range []string{"Walk", "Inspect"} {
 			count := map[uintptr]int{}
 			nilVisits := 0
@@ -453,14 +487,14 @@ func (w *worker) tree(src astgen.Source, p astgen.Parsed) {
 				w.report("walktree-panic", fmt.Sprintf("%s panicked on the whole tree though every node walks: %v; %s", mode, val, where(src, p, p.Tree)))
 				continue
 			}
-			for _, ref := range wnodes {
+			for _, ref := range expected {
 				if c := count[astrefl.NodePointer(ref.Node)]; c != 1 {
 					w.report("walktree-count", fmt.Sprintf("%s visited the %s node reached through %s %d times; %s", mode, astrefl.TypeName(ref.Node), ref.Edge, c, where(src, p, ref.Node)))
 					break
 				}
 			}
-			if len(count) != len(wnodes) {
-				w.report("walktree-count", fmt.Sprintf("%s visited %d distinct nodes, the tree has %d; %s", mode, len(count), len(wnodes), where(src, p, p.Tree)))
+			if len(count) != len(expected) {
+				w.report("walktree-count", fmt.Sprintf("%s visited %d distinct nodes, %d are reachable; %s", mode, len(count), len(expected), where(src, p, p.Tree)))
 			}
 			w.counts["walk_visits"] += int64(len(count))
 		}
